@@ -141,6 +141,71 @@ def raw_name_modules(start, tier):
     return mods
 
 
+def macro_forwarded_modules(start, tier):
+    """attribute values forwarded through `macro_rules!` fragments (`$m:path`, `$t:ty`, `$r:expr`, `$n:ident`): the value reaches the
+    derive inside an invisible group; `p = v` and `p(v)` must still be the same request"""
+    from .runner import Harness
+    mods = []
+    n = start
+    for form, tag in [('method($m)', 'p(v)'), ('method = $m', 'p = v')]:
+        c = form.replace('$m', '$c')
+        decl = f"""use crate::support::dbg::*;
+macro_rules! mk {{
+    ($m:path, $c:path, $h:path, $k:path, $f:path, $i:path, $t:ty, $r:expr, $n:ident) => {{
+        #[derive(Educe)]
+        #[educe(PartialEq)]
+        pub struct Pe {{ #[educe(PartialEq({form}))] pub a: u8, pub b: u8 }}
+        #[derive(Educe)]
+        #[educe(PartialOrd, Ord)]
+        #[derive(PartialEq, Eq)]
+        pub struct Or {{ #[educe(Ord({c}, rank = $r))] pub a: u8, pub b: u8 }}
+        #[derive(Educe)]
+        #[educe(Hash)]
+        pub enum Ha {{ A(#[educe(Hash({form.replace('$m', '$h')}))] u8, u8), B }}
+        #[derive(Educe)]
+        #[educe(Clone)]
+        pub struct Cl {{ #[educe(Clone({form.replace('$m', '$k')}))] pub a: u8, pub b: u8 }}
+        #[derive(Educe)]
+        #[educe(Debug(name = $n))]
+        pub struct De {{ #[educe(Debug({form.replace('$m', '$f')}))] pub a: u8, #[educe(Debug(name = $n))] pub b: Val<1> }}
+        #[derive(Educe)]
+        #[educe(Into($t))]
+        pub struct In {{ pub a: u8, #[educe(Into($t, {form.replace('$m', '$i')}))] pub b: u8, pub c: $t }}
+    }};
+}}
+pub fn widen(v: u8) -> u16 {{ v as u16 + 300 }}
+mk!(eq_le, rev_cmp, hash_m, clone_m8, fmt_any, widen, u16, 7, Zed);
+"""
+        h = Harness('h_forwarded', unwind=40, covers=['reached'])
+        body = decl + h.attrs() + '''pub fn h_forwarded() {
+    let (p, q, r, s): (u8, u8, u8, u8) = (kani::any(), kani::any(), kani::any(), kani::any());
+    kani::cover!(true, "reached");
+    assert!((Pe { a: p, b: q } == Pe { a: r, b: s }) == (eq_le(&p, &r) && q == s), "PartialEq method forwarded by a macro");
+    assert!(Ord::cmp(&Or { a: p, b: q }, &Or { a: r, b: s }) == q.cmp(&s).then(rev_cmp(&p, &r)), "Ord method / rank forwarded by a macro");
+    let mut want = Rec::new();
+    core::hash::Hash::hash(&0usize, &mut Rec::new());
+    let got = rec_of(&Ha::A(p, q));
+    let got2 = rec_of(&Ha::A(r, q));
+    assert!(got.same(&got2) == (p == r), "Hash method forwarded by a macro");
+    let _ = &mut want;
+    let c = Clone::clone(&Cl { a: p, b: q });
+    assert!(c.a == clone_m8(&p) && c.b == q, "Clone method forwarded by a macro");
+    let v: u16 = Into::into(In { a: p, b: q, c: 9 });
+    assert!(v == widen(q), "Into method / target type forwarded by a macro");
+    log_reset();
+    let (b1, r1) = render(&De { a: 1, b: Val(2) }, false);
+    let wantb = b"Zed { a: ?, Zed: v1 }";
+    assert!(r1.is_ok() && !b1.overflow && b1.n == wantb.len(), "Debug method / name forwarded by a macro (length)");
+    let mut i = 0;
+    while i < wantb.len() { assert!(b1.b[i] == wantb[i], "Debug method / name forwarded by a macro"); i += 1; }
+}
+'''
+        mods.append(Module(f'm{n:04d}', f'values forwarded through macro_rules fragments ($m:path, $t:ty, $r:expr, $n:ident), method spelled `{tag}`', body, [h],
+                           sample=dict(spelling=form), functions=FUNCTIONS))
+        n += 1
+    return mods
+
+
 STRUCTURAL = ('grouping', 'traitorder', 'paramorder')
 
 
@@ -205,6 +270,7 @@ def gen(tier, seed):
     from . import p_c08
     mods += p_c08.literal_modules(len(mods), tier)
     mods += raw_name_modules(len(mods), tier)
+    mods += macro_forwarded_modules(len(mods), tier)
     return mods
 
 
